@@ -23,7 +23,7 @@ NONE = "__none__"
 XSI = "http://www.w3.org/2001/XMLSchema-instance"
 STRICT = ParserConfig(fail_on_unknown_properties=True, fail_on_unknown_attributes=True, fail_on_converter_warnings=True)
 
-PY_TYPE = {"int": "int", "str": "str", "bool": "bool", "float": "float", "decimal": "Decimal", "Color": "Color", "ints": "List[int]", "Leaf": "Leaf"}
+PY_TYPE = {"int": "int", "str": "str", "bool": "bool", "float": "float", "decimal": "Decimal", "Color": "Color", "ints": "List[int]", "Leaf": "Leaf", "Sub": "Sub"}
 _N = [0]
 _CACHE: dict = {}
 
@@ -97,7 +97,7 @@ def materialise(m):
 def value(mod, tp, i):
     return {
         "int": (1, -7), "str": ("1", "true"), "bool": (True, False), "float": (1.0, 2.5), "decimal": (Decimal("1"), Decimal("2.50")),
-        "Color": (mod.Color.RED, mod.Color.ONE), "ints": ([1, 2], [3]), "Leaf": (mod.Leaf(x=5), mod.Sub(x=6)),
+        "Color": (mod.Color.RED, mod.Color.ONE), "ints": ([1, 2], [3]), "Leaf": (mod.Leaf(x=5), mod.Sub(x=6)), "Sub": (mod.Sub(x=6), mod.Sub(x=7)),
     }[tp][i - 1]
 
 
@@ -191,7 +191,7 @@ def same_values(a, b) -> bool:
     return type(a) is type(b) and a == b
 
 
-def check_case(ctx, case, tags_of=None):
+def check_case(ctx, case, tags_of=None, documents_only=False):
     m, inst, doc = case["m"], case["inst"], case["doc"]
     mod = materialise(m)
     xctx = XmlContext()
@@ -204,7 +204,7 @@ def check_case(ctx, case, tags_of=None):
     want = doc_canon(m, doc)
     # F30 (open): a model without element content held by a NILLABLE choice is written with xsi:nil="true" next to
     # its attributes and read back as None.  Exactly that image of the value list is the known finding.
-    f30_pos = [k for k, it in enumerate(inst) if not it["nil"] and m["choices"][it["c"] - 1]["tp"] == "Leaf" and m["choices"][it["c"] - 1]["nillable"]]
+    f30_pos = [k for k, it in enumerate(inst) if not it["nil"] and m["choices"][it["c"] - 1]["tp"] in ("Leaf", "Sub") and m["choices"][it["c"] - 1]["nillable"]]
     if isinstance(plain, list):
         f30_image = [None if k in f30_pos else v for k, v in enumerate(plain)]
     else:
@@ -230,12 +230,14 @@ def check_case(ctx, case, tags_of=None):
         if got != want or not root_ok:
             ctx.violation(f"compound field ({writer}): the document says {got}, the documentation prescribes {want}", {**info, "out": out})
             continue
-        for h in ("native", "lxml"):
+        for h in (() if documents_only else ("native", "lxml")):
             st, back, _w = hb.parse(out, h, xctx, mod.M, "str", STRICT)
             if st != "ok":
                 ctx.violation(f"compound field: own output does not parse back ({writer}->{h}): {type(back).__name__}: {back}", {**info, "out": out})
             elif not same_values(unwrap(back), plain):
                 ctx.violation(f"compound field: round trip ({writer}->{h}) gives {unwrap(back)!r}, the original is {plain!r}", {**info, "out": out, "finding_tags": tags(unwrap(back))})
+    if documents_only:
+        return
     # the prescribed document written by the harness parses into the value list
     text = info["prescribed"]
     for h in ("native", "lxml"):
@@ -247,7 +249,7 @@ def check_case(ctx, case, tags_of=None):
             ctx.violation(f"compound field: the prescribed document parses ({h}) to {unwrap(back)!r}, prescribed is {plain!r}", {**info, "finding_tags": tags(unwrap(back))})
 
 
-def run_phase(ctx):
+def run_phase(ctx, documents_only=False):
     base = "SPECIFICATION Spec\nCONSTANTS\n  MaxLen = {ml}\n  MaxChoices = {mc}\n"
     ctx.tlc("MC_Compound", "run.cfg", extra_files={"run.cfg": base.format(ml=2, mc=2) + "CONSTRAINT MCOnly\nINVARIANT InvInjective\nINVARIANT InvDetermined\nCHECK_DEADLOCK FALSE\n"},
             label="MC_Compound contract: injective and determined, <= 2 choices", timeout=3000)
@@ -260,5 +262,5 @@ def run_phase(ctx):
         if k in seen:
             continue
         seen.add(k)
-        check_case(ctx, c)
+        check_case(ctx, c, documents_only=documents_only)
     ctx.extra["compound_cases"] = len(seen)
